@@ -19,6 +19,9 @@ def to_json(x, classes, depth=0):
         return {"$set": [to_json(e, classes, depth + 1) for e in x]}
     if isinstance(x, dict):
         return {"$dict": [[to_json(k, classes, depth + 1), to_json(v, classes, depth + 1)] for k, v in x.items()]}
+    import enum
+    if isinstance(x, enum.Enum):
+        return {"$enum": type(x).__qualname__, "name": x.name}
     cname = type(x).__name__
     if cname in classes and depth < 6:
         out = {"$class": cname}
@@ -372,6 +375,27 @@ def RTCSctpTransport(rng, inst):
     t._reconfig_request_seq = tsn
     t._reconfig_response_seq = 0
     t._local_tsn = (tsn + n) % (1 << 32)
+    # stream resets: some registered channels are closing; the first few are in an outstanding request, the rest queued
+    if t._association_state == T.State.ESTABLISHED and t._data_channels and rng.random() < 0.6:
+        from aiortc.rtcsctptransport import StreamResetOutgoingParam, StreamResetResponseParam
+        ids = list(t._data_channels)
+        rng.shuffle(ids)
+        k = rng.randrange(1, len(ids) + 1)
+        closing = ids[:k]
+        for sid in closing:
+            t._data_channels[sid]._RTCDataChannel__readyState = "closing"
+        cut = rng.randrange(1, k + 1)
+        t._reconfig_request = StreamResetOutgoingParam(request_sequence=(tsn - 1) % (1 << 32), response_sequence=0,
+                                                       last_tsn=(tsn - 1) % (1 << 32), streams=closing[:cut])
+        t._reconfig_queue = closing[cut:]
+        if rng.random() < 0.5:
+            # the peer's response arrives (judged by the scenario search when this method is the unit under replay)
+            import asyncio
+            resp = StreamResetResponseParam(response_sequence=rng.choice([t._reconfig_request.request_sequence] * 3 + [5]), result=1)
+            try:
+                asyncio.new_event_loop().run_until_complete(t._receive_reconfig_param(resp))
+            except Exception:
+                pass
     return t
 
 
